@@ -305,7 +305,24 @@ def _w_sink_alloc(m):
     return [("sink_alloc", "N[('body', 0)]", lambda: S.sink_alloc(p, p.body()[0]))]
 
 
+def _w_inline_scalar(m):
+    import exo.stdlib.scheduling as S
+    p = m.foo
+    return [("inline_assign", "N[('body', 1)]", lambda: S.inline_assign(p, p.body()[1]))]
+
+
 WITNESSES = [
+    ("inline_assign_scalar_passed_to_call", """
+@proc
+def sub(s: R, y: R[2]):
+    y[0] = s
+
+@proc
+def foo(x: R[2], y: R[2]):
+    a: R
+    a = x[0] + x[1]
+    sub(a, y)
+""", _w_inline_scalar),
     ("stage_mem_window_alias", """
 @proc
 def foo(x: R[4], y: R[4]):
